@@ -304,6 +304,8 @@ func c11Replay(raw json.RawMessage) string {
 			msg = c11CheckDist(cs.X1, cs.X2, cache, true)
 		case "approx":
 			msg = c11CheckApprox(cs.X1, cs.X2)
+		case "switch":
+			msg = c11CheckSwitch(cs.X1, cs.X2)
 		default:
 			msg = c11CheckPair(cs.X1, cs.X2, cache)
 		}
@@ -503,6 +505,35 @@ func c11CheckApprox(x1, x2 []float64) string {
 	return ""
 }
 
+// c11CheckSwitch: sanity of the exact path at sizes where brute force is out
+// of reach: p in [0,1], two-sided symmetric under swapping and equal to
+// min(1, 2·min(one-sided)).
+func c11CheckSwitch(x1, x2 []float64) string {
+	a, err := MannWhitneyUTest(x1, x2, LocationDiffers)
+	b, err2 := MannWhitneyUTest(x2, x1, LocationDiffers)
+	if err != nil || err2 != nil {
+		return fmt.Sprintf("errors %v %v", err, err2)
+	}
+	n := len(x1)
+	if a.P < 0 || a.P > 1 || math.Abs(a.P-b.P) > 1e-9 {
+		return fmt.Sprintf("n=%d: two-sided p=%v, swapped p=%v", n, a.P, b.P)
+	}
+	l, _ := MannWhitneyUTest(x1, x2, LocationLess)
+	g, _ := MannWhitneyUTest(x1, x2, LocationGreater)
+	for _, r := range []*MannWhitneyUTestResult{l, g} {
+		if r.P < -1e-12 || r.P > 1+1e-12 || math.IsNaN(r.P) {
+			return fmt.Sprintf("n=%d: one-sided p=%v outside [0,1]", n, r.P)
+		}
+	}
+	if l.P+g.P < 1-1e-9 {
+		return fmt.Sprintf("n=%d: P(U<=u)+P(U>=u) = %v < 1", n, l.P+g.P)
+	}
+	if math.Abs(math.Min(1, 2*math.Min(l.P, g.P))-a.P) > 1e-9 {
+		return fmt.Sprintf("n=%d: two-sided %v is not 2·min(%v,%v)", n, a.P, l.P, g.P)
+	}
+	return ""
+}
+
 func c11Approx(c *mc.Check) {
 	f := c.Family("normal-approximation", "deterministic sample families (shifted blocks, interleavings, heavy ties, all equal) at sizes on both sides of the exact/approximate switch (untied 50/51, tied 25/26, mixed sizes): above the switch p equals the tie- and continuity-corrected normal approximation evaluated independently; at the switch the exact path is still used (p within [0,1], symmetric under swap); empty samples are errors; non-trivial = every case", c11Replay)
 	if c.Replaying() {
@@ -526,6 +557,8 @@ func c11Approx(c *mc.Check) {
 		}
 		return x
 	}
+	type job struct{ x1, x2 []float64 }
+	var jobs []job
 	for _, n1 := range []int{1, 10, 25, 26, 50, 51, 60} {
 		for _, n2 := range []int{1, 10, 25, 26, 50, 51, 55} {
 			for _, k1 := range []string{"distinct", "ties", "heavy", "equal", "inter"} {
@@ -545,55 +578,47 @@ func c11Approx(c *mc.Check) {
 						if n1 <= lim && n2 <= lim {
 							continue // exact path; covered elsewhere
 						}
-						var msg string
-						if p := mc.Catch(func() { msg = c11CheckApprox(x1, x2) }); p != "" {
-							msg = p
-						}
-						f.Count(1, 1)
-						f.Outcome(fmt.Sprintf("ties=%v", ties), 1)
-						if msg != "" {
-							c.Fail(f, "utest-approx", c11Case{x1, x2, "approx"}, msg)
-						}
+						jobs = append(jobs, job{x1, x2})
 					}
 				}
 			}
 		}
 	}
+	mc.ParRange(uint64(len(jobs)), 8, c.TimeUp, func(w int, lo, hi uint64) {
+		for i := lo; i < hi; i++ {
+			x1, x2 := jobs[i].x1, jobs[i].x2
+			var msg string
+			if p := mc.Catch(func() { msg = c11CheckApprox(x1, x2) }); p != "" {
+				msg = p
+			}
+			f.Count(1, 1)
+			f.Outcome(fmt.Sprintf("ok=%v", msg == ""), 1)
+			if msg != "" {
+				c.Fail(f, "utest-approx", c11Case{x1, x2, "approx"}, msg)
+			}
+		}
+	})
 	// At the switch: exact path still used; sanity only (brute force is out of reach).
-	for _, cs := range []struct {
+	switchCases := []struct {
 		n    int
 		kind string
-	}{{25, "ties"}, {50, "distinct"}, {25, "heavy"}} {
+	}{{25, "ties"}, {50, "distinct"}, {25, "heavy"}, {15, "ties"}, {20, "heavy"}, {18, "ties"}}
+	mc.ParRange(uint64(len(switchCases)), 1, c.TimeUp, func(w int, lo, hi uint64) {
+		cs := switchCases[lo]
 		x1, x2 := gen(cs.n, cs.kind, 0.5), gen(cs.n, cs.kind, 0)
 		if cs.kind == "distinct" {
 			x1 = gen(cs.n, cs.kind, 1)
 		}
 		var msg string
-		p := mc.Catch(func() {
-			a, err := MannWhitneyUTest(x1, x2, LocationDiffers)
-			b, err2 := MannWhitneyUTest(x2, x1, LocationDiffers)
-			if err != nil || err2 != nil {
-				msg = fmt.Sprintf("errors %v %v", err, err2)
-				return
-			}
-			if a.P < 0 || a.P > 1 || math.Abs(a.P-b.P) > 1e-9 {
-				msg = fmt.Sprintf("n=%d %s: p=%v swapped p=%v", cs.n, cs.kind, a.P, b.P)
-			}
-			l, _ := MannWhitneyUTest(x1, x2, LocationLess)
-			g, _ := MannWhitneyUTest(x1, x2, LocationGreater)
-			if math.Abs(math.Min(1, 2*math.Min(l.P, g.P))-a.P) > 1e-9 {
-				msg = fmt.Sprintf("n=%d %s: two-sided %v is not 2·min(%v,%v)", cs.n, cs.kind, a.P, l.P, g.P)
-			}
-		})
-		if p != "" {
+		if p := mc.Catch(func() { msg = c11CheckSwitch(x1, x2) }); p != "" {
 			msg = p
 		}
 		f.Count(1, 1)
 		f.Outcome("at-switch", 1)
 		if msg != "" {
-			c.Fail(f, "utest-switch", c11Case{x1, x2, "pair"}, msg)
+			c.Fail(f, "utest-switch", c11Case{x1, x2, "switch"}, msg)
 		}
-	}
+	})
 	for _, pair := range [][2][]float64{{nil, {1}}, {{1}, nil}, {nil, nil}} {
 		r, err := MannWhitneyUTest(pair[0], pair[1], LocationDiffers)
 		f.Count(1, 1)
